@@ -30,6 +30,8 @@ class StdModel:
 
     def type(self, t, em):
         t = re.sub(r'\s+', ' ', t).strip()
+        # clang prints std names without the namespace inside some sugared types (typename std::remove_reference<vector<int> &>::type)
+        t = re.sub(r'(?<![\w:])(vector|array|allocator)<', r'std::\1<', t)
         if t in ('std::size_t', 'size_t', 'std::make_unsigned_t<long>'):
             return 'unsigned long'
         if t in ('std::ptrdiff_t', 'ptrdiff_t'):
@@ -253,6 +255,14 @@ class StdModel:
                 self.used.add(q + '(std::array, std::array): element-wise, N = %s' % arr[0][1])
                 x, y = em.addr(args[0]), em.addr(args[1])
                 return '(%s(%s))' % ('!' if q.endswith('!=') else '', ' && '.join('(%s)->a[%d] == (%s)->a[%d]' % (x, k, y, k) for k in range(int(arr[0][1]))))
+        if q in ('std::begin', 'std::end', 'std::cbegin', 'std::cend') and len(args) == 1:
+            vt = self.type(strip_cv(dq(args[0]['type'])).rstrip('& '), em) or ''
+            p0 = em.addr(args[0])
+            self.used.add(q)
+            if vt.startswith('xv_vec_'):
+                return '((%s)->data)' % p0 if q.endswith('begin') else '((%s)->data + (%s)->size)' % (p0, p0)
+            if vt.startswith('xv_arr_'):
+                return '(&(%s)->a[0])' % p0 if q.endswith('begin') else '(&(%s)->a[0] + sizeof((%s)->a)/sizeof((%s)->a[0]))' % (p0, p0, p0)
         if q == 'std::equal' and len(args) == 3:
             ct = em.ctype(dq(args[0]['type']))
             if ct.endswith('*'):
